@@ -2,7 +2,12 @@ package main
 
 import (
 	"fmt"
+	"github.com/bluenviron/gomavlib/v3"
 	"math/rand"
+	"reflect"
+	"strings"
+	"time"
+	"verifharness/scn"
 
 	"github.com/bluenviron/gomavlib/v3/pkg/dialect"
 	"github.com/bluenviron/gomavlib/v3/pkg/message"
@@ -23,6 +28,7 @@ func x25sum(parts ...[]byte) string {
 }
 
 func genC02(o *hx.Out, tier string) {
+	defer c02DialectChanged(o)
 	r := hx.NewRand(2)
 	// (a) the checksum step: every 2-byte prefix reaches a distinct register state (checked by
 	// the driver: 65536 distinct sums), then one more byte.
@@ -137,4 +143,61 @@ func c02Gate(o *hx.Out, r *rand.Rand, dname string, d *dialect.Dialect, nmsg int
 			}
 		}
 	}
+}
+
+// c02DialectChanged: the gate of a node is the gate of the dialect the node was given when it was
+// created. An application creates a node with a dialect value, closes it, changes the messages of
+// that same value (redefines one, adds one) and creates another node with it: the second node checks
+// frames against the definitions it was given, not against those of the first node.
+func c02DialectChanged(o *hx.Out) {
+	r := hx.NewRand(202)
+	d := &dialect.Dialect{Version: 3, Messages: []message.Message{&MessageUserA{}, &MessageUserB{}}}
+	run := func(tag string, feed [][]byte, want string) {
+		p := scn.NewPipe("c02")
+		node, err := gomavlib.NewNode(gomavlib.NodeConf{Endpoints: []gomavlib.EndpointConf{gomavlib.EndpointCustom{ReadWriteCloser: p}},
+			Dialect: d, OutVersion: gomavlib.V2, OutSystemID: 10, HeartbeatDisable: true})
+		if err != nil {
+			o.Add("dialect value changed between two nodes", "NODE-FAILED "+err.Error(), "expect", want, tag)
+			return
+		}
+		var evs []string
+		done := make(chan struct{})
+		go func() {
+			defer close(done)
+			for evt := range node.Events() {
+				switch e := evt.(type) {
+				case *gomavlib.EventFrame:
+					evs = append(evs, "F:"+reflect.TypeOf(e.Message()).Elem().Name())
+				case *gomavlib.EventParseError:
+					evs = append(evs, "P")
+				}
+			}
+		}()
+		time.Sleep(100 * time.Millisecond)
+		for _, b := range feed {
+			p.Feed(b)
+		}
+		time.Sleep(300 * time.Millisecond)
+		node.Close()
+		<-done
+		o.Add("dialect value changed between two nodes", strings.Join(evs, " "), "expect", want, tag)
+	}
+	frameOf := func(dd *dialect.Dialect, m message.Message) []byte {
+		drw := &dialect.ReadWriter{Dialect: dd}
+		if err := drw.Initialize(); err != nil {
+			return nil
+		}
+		bs, _ := writeFrame(drw, validFrame(r, drw, m, true, nil))
+		return bs
+	}
+	oldA := frameOf(d, hx.RandMessage(r, &MessageUserA{}, 1))
+	run("first node", [][]byte{oldA}, "F:MessageUserA")
+	// the application redefines message 50001 and adds a message
+	d.Messages = []message.Message{&MessageUserARedefined{}, &MessageUserB{}, &MessageUserC{}}
+	newA := frameOf(d, hx.RandMessage(r, &MessageUserARedefined{}, 1))
+	newC := frameOf(d, hx.RandMessage(r, &MessageUserC{}, 1))
+	damagedC := append([]byte(nil), newC...)
+	damagedC[len(damagedC)-1] ^= 0x40
+	run("second node, same dialect value with other messages", [][]byte{newA, oldA, newC, damagedC},
+		"F:MessageUserARedefined P F:MessageUserC P")
 }
